@@ -43,6 +43,20 @@ def check(H, name, P, knees, link, t):
                 if np.any(np.isnan(sc)):
                     H.note("NaN ranking score (plateau): maximality not checked")
                     continue
+                # the score is "segment fit quality times relative height": relative height = |peak - y| / sum over the cluster (peak = highest
+                # member), fit quality is an R^2 in [0,1] - so 0 <= score <= relative height, the peak member scores 0, and on an exactly
+                # straight curve (fit quality 1) a middle member at least 3 points away from both ends of the cluster scores its relative height
+                ys = np.array([P[v][1] for v in g], dtype=float)
+                w = np.abs(ys.max() - ys)
+                if w.sum() > 0:
+                    rel = w / w.sum()
+                    bad = [i for i in range(len(g)) if not (-1e-9 <= sc[i] <= rel[i] + 1e-9) or (rel[i] == 0 and abs(sc[i]) > 1e-12)]
+                    if name.startswith("line") and not bad:
+                        bad = [i for i in range(1, len(g) - 1) if g[i] - g[0] >= 3 and g[-1] - g[i] >= 3 and abs(sc[i] - rel[i]) > 1e-9]
+                    if bad:
+                        H.violation("smooth_ranking(%s, %s) on %s = %s is not fit quality (in [0,1]; 1 on a straight line) times relative height %s" % (g, mode, name, np.asarray(sc).tolist(), rel.tolist()),
+                                    dict(inp, mode=str(mode)), clause="score")
+                        continue
                 chosen = [v for v in got if v in g][0]
                 if sc[g.index(chosen)] < np.max(sc):
                     H.violation("filter_clusters(%s,%s,%s) on %s keeps %d from cluster %s with score %r < max %r" % (knees.tolist(), link.__name__, mode, name, chosen, g, float(sc[g.index(chosen)]), float(np.max(sc))), dict(inp, mode=str(mode)), clause="best-ranked")
@@ -65,6 +79,12 @@ def check(H, name, P, knees, link, t):
         okc = len(got) == len(groups)
         for g, v in zip(groups, got):
             r = pp.rank_corners_triangle(P, np.array(g))
+            # corner-triangle score: half the run from the previous point times the drop to the next point
+            want = [0.5 * ((P[k][0] - P[k - 1][0]) * (P[k][1] - P[k + 1][1])) for k in g]
+            if not np.allclose(np.asarray(r, dtype=float), want, rtol=1e-12, atol=1e-12):
+                H.violation("rank_corners_triangle(%s) on %s = %s, corner-triangle scores are %s" % (g, name, np.asarray(r).tolist(), want), dict(inp, mode="corners"), clause="corner-score")
+                okc = True
+                break
             okc = okc and v in g and r[g.index(v)] >= np.max(r)
         if not okc:
             H.violation("filter_clusters_corners(%s,%s,t=%s) on %s = %s does not keep a knee maximising the corner-triangle score in every cluster %s" % (knees.tolist(), link.__name__, t, name, got, groups), dict(inp, mode="corners"), clause="corners")
@@ -79,7 +99,8 @@ def run(H, tier, rng):
               ("bump-10", curve(np.arange(10), [100, 60, 35, 31, 28, 26, 10, 6, 3, 1])),
               ("hyper-14", curve(np.arange(1, 15), 50.0 / np.arange(1, 15))),
               ("nonmono-10", curve(np.arange(10), [9, 7, 8, 5, 6, 3, 4, 2, 2.5, 1])),
-              ("uneven-9", curve([0, 1, 2, 4, 7, 8, 12, 13, 20], [20, 15, 11, 8, 6, 5, 3, 2, 1]))]
+              ("uneven-9", curve([0, 1, 2, 4, 7, 8, 12, 13, 20], [20, 15, 11, 8, 6, 5, 3, 2, 1])),
+              ("line-16", curve(np.arange(16), 200.0 - 8.0 * np.arange(16)))]
     for name, P in curves:
         n = len(P)
         interior = list(range(1, n - 1))
@@ -87,6 +108,8 @@ def run(H, tier, rng):
         for r in (2, 3, 4, 5):
             combos = list(itertools.combinations(interior, r))
             subsets += rng.sample(combos, min(len(combos), 14 if tier == "quick" else 120))
+        if name.startswith("line"):
+            subsets = [(1, 4, 7, 10, 13), (2, 5, 8, 12), (1, 5, 9, 14), (3, 6, 10, 13)] + subsets[:6]
         for knees in subsets:
             for link in LINK:
                 for t in (0.05, 0.2, 0.3, 0.6):
@@ -96,6 +119,6 @@ def run(H, tier, rng):
 
 
 if __name__ == "__main__":
-    Harness("C12", "5 curves (staircase with equal heights, bump above the lower hull, hyperbola, non-monotone, uneven spacing) x interior knee subsets of "
+    Harness("C12", "6 curves (staircase with equal heights, bump above the lower hull, hyperbola, non-monotone, uneven spacing, straight line) x interior knee subsets of "
             "2-5 knees x 4 linkages x t in {.05,.2,.3,.6} x 3 ranking modes + hull mode + corner variant; oracle: one-per-cluster and maximal "
-            "score with the library's smooth_ranking / rank_corners_triangle as primitives, brute-force lower hull for hull mode", "n <= 14").main(run)
+            "score with the library's smooth_ranking as primitive, itself checked to be a fit quality in [0,1] (1 on straight data) times the relative height; corner-triangle score from its formula; brute-force lower hull for hull mode", "n <= 14").main(run)
